@@ -15,19 +15,52 @@ def _tenths(x):
     return t if abs(t - x * 10) < 1e-9 and t >= 0 else None
 
 
+def _is_version(e):
+    return (isinstance(e, ast.Attribute) and e.attr == "version") or (isinstance(e, ast.Name) and e.id == "version")
+
+
 def _thresholds(fn):
-    """`self.version < <a>` and `self.version >= <b>` in Payload.request, in tenths."""
+    """`self.version < <a>` and `self.version >= <b>` in Payload.request, in tenths (also spelt `<a> > self.version`,
+    `<b> <= self.version`, `not self.version < <b>`)."""
     lt = ge = None
+    negated = set()
     for n in ast.walk(fn):
-        if isinstance(n, ast.Compare) and len(n.ops) == 1 and isinstance(n.left, ast.Attribute) and n.left.attr == "version":
-            v = _tenths(const_num(n.comparators[0]))
-            if isinstance(n.ops[0], ast.Lt):
+        if isinstance(n, ast.UnaryOp) and isinstance(n.op, ast.Not) and isinstance(n.operand, ast.Compare):
+            negated.add(id(n.operand))
+    for n in ast.walk(fn):
+        if isinstance(n, ast.Compare) and len(n.ops) == 1:
+            op = type(n.ops[0])
+            if _is_version(n.left):
+                v = _tenths(const_num(n.comparators[0]))
+            elif _is_version(n.comparators[0]):
+                v = _tenths(const_num(n.left))
+                op = {ast.Lt: ast.Gt, ast.Gt: ast.Lt, ast.LtE: ast.GtE, ast.GtE: ast.LtE}.get(op, op)
+            else:
+                continue
+            if id(n) in negated:
+                op = {ast.Lt: ast.GtE, ast.GtE: ast.Lt}.get(op, None)
+            if op is ast.Lt:
                 lt = v
-            elif isinstance(n.ops[0], ast.GtE):
+            elif op is ast.GtE:
                 ge = v
     if lt is None or ge is None:
         return None
     return lt, ge
+
+
+def _calls_uuid_module(stmts):
+    """Some call in the statements goes into the `uuid` module (uuid.uuid4(), uuid.uuid1(), uuid4() imported from it …)."""
+    for s in stmts:
+        for m in ast.walk(s):
+            if isinstance(m, ast.Call):
+                f = m.func
+                while isinstance(f, (ast.Attribute, ast.Call)):
+                    if isinstance(f, ast.Attribute) and f.attr.startswith("uuid"):
+                        return True
+                    f = f.value if isinstance(f, ast.Attribute) else f.func
+                if isinstance(f, ast.Name) and f.id.startswith("uuid"):
+                    return True
+    return False
 
 
 def _id_test(fn):
@@ -38,19 +71,21 @@ def _id_test(fn):
     """
     for n in ast.walk(fn):
         if isinstance(n, ast.If):
-            assigns_uuid = any(isinstance(m, ast.Attribute) and m.attr == "uuid4" for s in n.body for m in ast.walk(s))
-            if not assigns_uuid:
+            if not _calls_uuid_module(n.body):
                 continue
             t = n.test
             if isinstance(t, ast.UnaryOp) and isinstance(t.op, ast.Not):
                 return "falsy"
             if isinstance(t, ast.BoolOp) and isinstance(t.op, ast.Or) and len(t.values) == 2:
                 a, b = t.values
-                is_none = (isinstance(a, ast.Compare) and isinstance(a.ops[0], ast.Is)
-                           and isinstance(a.comparators[0], ast.Constant) and a.comparators[0].value is None)
-                eq_empty = (isinstance(b, ast.Compare) and isinstance(b.ops[0], ast.Eq)
-                            and isinstance(b.comparators[0], ast.Constant) and b.comparators[0].value == "")
-                if is_none and eq_empty:
+                def _is_none(x):
+                    return (isinstance(x, ast.Compare) and isinstance(x.ops[0], ast.Is)
+                            and isinstance(x.comparators[0], ast.Constant) and x.comparators[0].value is None)
+
+                def _eq_empty(x):
+                    return (isinstance(x, ast.Compare) and isinstance(x.ops[0], ast.Eq)
+                            and any(isinstance(y, ast.Constant) and y.value == "" for y in [x.left, x.comparators[0]]))
+                if (_is_none(a) and _eq_empty(b)) or (_is_none(b) and _eq_empty(a)):
                     return "none-or-empty-string"
             if isinstance(t, ast.Compare) and isinstance(t.ops[0], ast.In):
                 c = t.comparators[0]
@@ -58,6 +93,48 @@ def _id_test(fn):
                     return "none-or-empty-string"
             return "other:" + ast.dump(t)[:80]
     return None
+
+
+def _forced_id_test(fn):
+    """How Fault.dump/Fault.response decide to apply the forced id: 'truthy' for `if rpcid:`, 'not-none' for
+    `if rpcid is not None:`, else 'other:…'; None when there is no such `if`."""
+    if fn is None:
+        return None
+    for n in ast.walk(fn):
+        if isinstance(n, ast.If):
+            stores = any(isinstance(m, ast.Attribute) and m.attr == "rpcid" and isinstance(m.ctx, ast.Store)
+                         for st in n.body for m in ast.walk(st))
+            if not stores:
+                continue
+            t = n.test
+            if isinstance(t, ast.Name) and t.id == "rpcid":
+                return "truthy"
+            if isinstance(t, ast.Compare) and isinstance(t.left, ast.Name) and t.left.id == "rpcid" and \
+                    isinstance(t.ops[0], ast.IsNot) and isinstance(t.comparators[0], ast.Constant) and t.comparators[0].value is None:
+                return "not-none"
+            return "other:" + ast.dump(t)[:60]
+    return None
+
+
+def _response_result(fn):
+    """What Payload.response binds to the "result" member: 'parameter' when it is the `result` parameter itself."""
+    if fn is None:
+        return None
+    found = None
+    for n in ast.walk(fn):
+        if isinstance(n, ast.Dict):
+            for k, v in zip(n.keys, n.values):
+                if isinstance(k, ast.Constant) and k.value == "result":
+                    found = v
+        elif isinstance(n, ast.Assign) and len(n.targets) == 1 and isinstance(n.targets[0], ast.Subscript):
+            sl = n.targets[0].slice
+            if isinstance(sl, ast.Constant) and sl.value == "result":
+                found = n.value
+    if found is None:
+        return None
+    if isinstance(found, ast.Name) and found.id == "result":
+        return "parameter"
+    return "other:" + ast.dump(found)[:60]
 
 
 def facts(src):
@@ -68,5 +145,17 @@ def facts(src):
         Fact("payloadThresholds", "Nat × Nat", None if th is None else "(%d, %d)" % th, ["C14"],
              "Payload.request: `version < a` forces params, `version >= b` adds jsonrpc (tenths)", json_value=th),
         Fact("payloadIdTest", "String", None if idt is None else lean_str(idt), ["C14"],
-             "Payload.request: the test that decides to generate an id", json_value=idt),
+             "Payload.request: the test that decides to generate an id (the id comes from a call into the uuid module)", json_value=idt),
+    ] + _more(src)
+
+
+def _more(src):
+    fd = _forced_id_test(src.func("jsonrpc", "Fault.dump"))
+    fr = _forced_id_test(src.func("jsonrpc", "Fault.response"))
+    rr = _response_result(src.func("jsonrpc", "Payload.response"))
+    return [
+        Fact("faultForcedIdTest", "String × String", None if fd is None or fr is None else "(%s, %s)" % (lean_str(fd), lean_str(fr)),
+             ["C14"], "Fault.dump / Fault.response: the test under which the forced rpcid replaces the Fault's own", json_value=[fd, fr]),
+        Fact("payloadResponseResult", "String", None if rr is None else lean_str(rr), ["C14"],
+             "Payload.response: the value bound to the \"result\" member", json_value=rr),
     ]
